@@ -29,6 +29,8 @@
 (*   RecreateTail = FALSE  -> missing tail file makes Open fail            *)
 (*   MaxFaults > 0, Recommit = FALSE -> F15 (failed file creation after    *)
 (*                            the metadata commit: disk ahead of memory)   *)
+(*   MaxFaults > 0, KeepNextId = FALSE -> seeded S51 (the id of a creation *)
+(*                            that failed half-way is handed out again)    *)
 (***************************************************************************)
 EXTENDS Integers, Sequences, FiniteSets, TLC, LogOps
 
@@ -38,7 +40,8 @@ CONSTANTS MaxIdx,        \* entries ever appended
           MaxOps,        \* API calls per behaviour
           RotateOnOpen, CreateBeforeCommit, Sweep, RecreateTail,
           MaxFaults,     \* I/O failures injected per behaviour (0: the crash-only model)
-          Recommit       \* fix F15: a failed postCommit re-commits the state that stays in use
+          Recommit,      \* fix F15: a failed postCommit re-commits the state that stays in use
+          KeepNextId     \* ... with the advanced next segment id (FALSE: the abandoned id is handed out again)
 
 VARIABLES meta,      \* durable metadata: [next, segs]  segs = Seq of [id, base, min, max, sealed]
           vdir,      \* ids of the files visible in the directory now
@@ -76,7 +79,7 @@ FirstOfView(segs, files) ==
 View == FirstOfView(mem.segs, fvol)
 
 Init == /\ meta = [next |-> 0, segs |-> <<>>] /\ vdir = {} /\ ddir = {} /\ fvol = <<>> /\ fdur = <<>>
-        /\ mem = [up |-> FALSE, segs |-> <<>>, next |-> 0, rot |-> FALSE]
+        /\ mem = [up |-> FALSE, segs |-> <<>>, next |-> 0, rot |-> FALSE, left |-> FALSE]
         /\ pc = <<"down">> /\ alog = Empty /\ unsure = {Empty} /\ nc = 1 /\ nops = 0 /\ crashes = 0 /\ created = {} /\ faults = 0
 
 Idle == pc = <<"idle">> /\ mem.up
@@ -95,7 +98,7 @@ DoCreate(id, base) ==
 (* Open *)
 OpenLoad ==
   /\ pc = <<"down">>
-  /\ mem' = [up |-> FALSE, segs |-> meta.segs, next |-> meta.next, rot |-> FALSE]
+  /\ mem' = [up |-> FALSE, segs |-> meta.segs, next |-> meta.next, rot |-> FALSE, left |-> FALSE]
   /\ pc' = <<"open", "segments">>
   /\ UNCHANGED <<meta, vdir, ddir, fvol, fdur, alog, unsure, nc, nops, crashes, faults, created>>
 
@@ -313,7 +316,7 @@ Crash ==
             /\ fvol' = [i \in DOMAIN fvol |-> IF i \in keepVol THEN fvol[i] ELSE fdur[i]]
             /\ fdur' = fvol'
   /\ ddir' = vdir'
-  /\ mem' = [up |-> FALSE, segs |-> <<>>, next |-> 0, rot |-> FALSE]
+  /\ mem' = [up |-> FALSE, segs |-> <<>>, next |-> 0, rot |-> FALSE, left |-> FALSE]
   /\ pc' = <<"down">> /\ crashes' = crashes + 1
   /\ UNCHANGED <<meta, alog, unsure, nc, nops, created, faults>>
 
@@ -323,24 +326,37 @@ Crash ==
 (* F15, Recommit): the kept state is committed again, with the advanced next id (a file with the    *)
 (* abandoned id may exist); pinned design: nothing - disk is ahead of memory, and what is appended  *)
 (* and acknowledged from now on lives in a file the metadata no longer lists.                        *)
+(* `left`: fs.Create may fail AFTER the O_EXCL creation (preallocation fails): the file stays in the directory. *)
+FailedCreate(id, base, left) ==
+  IF left THEN /\ vdir' = vdir \cup {id} /\ fvol' = Put(fvol, id, NoFile) /\ fdur' = Put(fdur, id, NoFile)
+               /\ created' = created \cup {<<id, base>>} /\ UNCHANGED ddir
+          ELSE UNCHANGED <<vdir, ddir, fvol, fdur, created>>
+KeptNext == IF KeepNextId THEN meta.next ELSE mem.next
+
 DelCreateFails ==
   /\ pc[1] = "del" /\ pc[2] = "create" /\ faults < MaxFaults
   /\ faults' = faults + 1
-  /\ IF Recommit THEN /\ meta' = [next |-> meta.next, segs |-> mem.segs]
-                      /\ mem' = [mem EXCEPT !.next = meta.next]
-                 ELSE UNCHANGED <<meta, mem>>
+  /\ \E left \in BOOLEAN :
+       /\ FailedCreate(TailOf(pc[3]).id, TailOf(pc[3]).base, left /\ TailOf(pc[3]).id \notin vdir)
+       /\ IF Recommit THEN /\ meta' = [next |-> KeptNext, segs |-> mem.segs]
+                           /\ mem' = [mem EXCEPT !.next = KeptNext, !.left = (@ \/ left)]
+                      ELSE /\ mem' = [mem EXCEPT !.left = (@ \/ left)] /\ UNCHANGED meta
   /\ unsure' = {alog, pc[5]}           \* the call returns an error: applied or not, both are acceptable
   /\ pc' = <<"idle">>
-  /\ UNCHANGED <<vdir, ddir, fvol, fdur, alog, nc, nops, crashes, created>>
+  /\ UNCHANGED <<alog, nc, nops, crashes>>
 
 RotateCreateFails ==
   /\ pc = <<"rotate", "create">> /\ faults < MaxFaults
   /\ faults' = faults + 1
-  /\ IF Recommit THEN /\ meta' = [next |-> meta.next, segs |-> mem.segs]
-                      /\ mem' = [mem EXCEPT !.next = meta.next, !.rot = FALSE]
-                 ELSE /\ mem' = [mem EXCEPT !.rot = FALSE] /\ UNCHANGED meta
+  /\ LET t == TailOf(mem.segs)
+         last == t.base + Len(fvol[t.id].ents) - 1
+     IN \E left \in BOOLEAN :
+          /\ FailedCreate(mem.next, last + 1, left /\ mem.next \notin vdir)
+          /\ IF Recommit THEN /\ meta' = [next |-> KeptNext, segs |-> mem.segs]
+                              /\ mem' = [mem EXCEPT !.next = KeptNext, !.rot = FALSE, !.left = (@ \/ left)]
+                         ELSE /\ mem' = [mem EXCEPT !.rot = FALSE, !.left = (@ \/ left)] /\ UNCHANGED meta
   /\ pc' = <<"idle">>                  \* the error is logged; the tail stays sealed: appends are refused until a reopen
-  /\ UNCHANGED <<vdir, ddir, fvol, fdur, alog, unsure, nc, nops, crashes, created>>
+  /\ UNCHANGED <<alog, unsure, nc, nops, crashes>>
 
 Next ==
   \/ OpenLoad \/ OpenSegments \/ OpenInitCommit \/ OpenInitCreate \/ OpenRotate \/ OpenSweep
@@ -367,7 +383,8 @@ C01_ViewAllowed == Idle => View \in unsure
 C01_Recovered == unsure # {}
 
 (* C13: after Open (and after every completed call) the directory holds exactly the listed segments *)
-C13_ExactDir == Idle => vdir = Ids(mem.segs)
+\* (a creation that failed half-way may leave its file behind until the next Open sweeps it: mem.left)
+C13_ExactDir == Idle => (IF mem.left THEN Ids(mem.segs) \subseteq vdir ELSE vdir = Ids(mem.segs))
 (* C13: a segment id is never used for two different segments *)
 C13_UniqueIds == \A p, q \in created : p[1] = q[1] => p[2] = q[2]
 
